@@ -203,6 +203,63 @@ static rc::Gen<std::vector<LD>> gen_pair(int nt, int n) {
                       });
 }
 
+// ---- products that involve directions: every overload must equal the same product taken with the direction's stored components --------
+// (they are thin forwarding overloads - exactly the kind of site where a copy-paste slip survives; C09 for the algebra, C10 for "magnitude x direction")
+#include <PhQ/Dyad.hpp>
+#include <PhQ/SymmetricDyad.hpp>
+template <class T> static std::string dirprod(int n, int which, const LD* a, const LD* b, const LD* t9, LD mag) {
+  using PhQ::Dyad; using PhQ::SymmetricDyad;
+  auto same = [&](const char* what, const LD* got, const LD* want, int k) -> std::string {
+    for (int i = 0; i < k; i++) { const LD g = got[i], w = (LD)(T)want[i]; if (std::memcmp(&g, &w, 10) != 0 && !(g == 0 && w == 0)) return fmt("%s: component %d is %s, the same product on the stored components gives %s", what, i, hexld(g).c_str(), hexld(w).c_str()); }
+    return ""; };
+  auto f3 = [](const Vector<T>& v, LD* o) { o[0] = v.x(); o[1] = v.y(); o[2] = v.z(); };
+  auto f9 = [](const Dyad<T>& v, LD* o) { o[0] = v.xx(); o[1] = v.xy(); o[2] = v.xz(); o[3] = v.yx(); o[4] = v.yy(); o[5] = v.yz(); o[6] = v.zx(); o[7] = v.zy(); o[8] = v.zz(); };
+  LD g[9], w[9];
+  const Dyad<T> D((T)t9[0], (T)t9[1], (T)t9[2], (T)t9[3], (T)t9[4], (T)t9[5], (T)t9[6], (T)t9[7], (T)t9[8]);
+  const SymmetricDyad<T> S((T)t9[0], (T)t9[1], (T)t9[2], (T)t9[4], (T)t9[5], (T)t9[8]);
+  if (n == 3) {
+    const Direction<T> d((T)a[0], (T)a[1], (T)a[2]), e((T)b[0], (T)b[1], (T)b[2]); const Vector<T> v((T)b[0], (T)b[1], (T)b[2]); const Vector<T> dv = d.Value(), ev = e.Value();
+    switch (which) {
+      case 0: g[0] = d.Dot(v); w[0] = dv.Dot(v); return same("Direction.Dot(Vector)", g, w, 1);
+      case 1: g[0] = v.Dot(d); w[0] = v.Dot(dv); return same("Vector.Dot(Direction)", g, w, 1);
+      case 2: g[0] = d.Dot(e); w[0] = dv.Dot(ev); return same("Direction.Dot(Direction)", g, w, 1);
+      case 3: f3(d.Cross(v), g); f3(dv.Cross(v), w); return same("Direction.Cross(Vector)", g, w, 3);
+      case 4: f3(v.Cross(d), g); f3(v.Cross(dv), w); return same("Vector.Cross(Direction)", g, w, 3);
+      case 5: f9(d.Dyadic(v), g); f9(dv.Dyadic(v), w); return same("Direction.Dyadic(Vector)", g, w, 9);
+      case 6: f9(v.Dyadic(d), g); f9(v.Dyadic(dv), w); return same("Vector.Dyadic(Direction)", g, w, 9);
+      case 7: f9(d.Dyadic(e), g); f9(dv.Dyadic(ev), w); return same("Direction.Dyadic(Direction)", g, w, 9);
+      case 8: f3(S * d, g); f3(S * dv, w); return same("SymmetricDyad * Direction", g, w, 3);
+      case 9: f3(D * d, g); f3(D * dv, w); return same("Dyad * Direction", g, w, 3);
+      case 10: f3(Vector<T>((T)mag, d), g); f3(dv * (T)mag, w); return same("Vector(magnitude, Direction)", g, w, 3);
+      case 11: g[0] = d.MagnitudeSquared(); w[0] = dv.MagnitudeSquared(); g[1] = d.Magnitude(); w[1] = dv.Magnitude(); return same("Direction.MagnitudeSquared()/Magnitude()", g, w, 2);
+      default: return "";
+    }
+  }
+  const PlanarDirection<T> d((T)a[0], (T)a[1]), e((T)b[0], (T)b[1]); const PlanarVector<T> v((T)b[0], (T)b[1]); const PlanarVector<T> dv = d.Value(), ev = e.Value();
+  switch (which) {
+    case 0: g[0] = d.Dot(v); w[0] = dv.Dot(v); return same("PlanarDirection.Dot(PlanarVector)", g, w, 1);
+    case 1: g[0] = v.Dot(d); w[0] = v.Dot(dv); return same("PlanarVector.Dot(PlanarDirection)", g, w, 1);
+    case 2: g[0] = d.Dot(e); w[0] = dv.Dot(ev); return same("PlanarDirection.Dot(PlanarDirection)", g, w, 1);
+    case 3: f3(d.Cross(v), g); f3(dv.Cross(v), w); return same("PlanarDirection.Cross(PlanarVector)", g, w, 3);
+    case 4: f3(v.Cross(d), g); f3(v.Cross(dv), w); return same("PlanarVector.Cross(PlanarDirection)", g, w, 3);
+    case 5: f9(d.Dyadic(v), g); f9(dv.Dyadic(v), w); return same("PlanarDirection.Dyadic(PlanarVector)", g, w, 9);
+    case 6: f9(v.Dyadic(d), g); f9(v.Dyadic(dv), w); return same("PlanarVector.Dyadic(PlanarDirection)", g, w, 9);
+    case 7: f9(d.Dyadic(e), g); f9(dv.Dyadic(ev), w); return same("PlanarDirection.Dyadic(PlanarDirection)", g, w, 9);
+    case 8: f3(S * d, g); f3(S * dv, w); return same("SymmetricDyad * PlanarDirection", g, w, 3);
+    case 9: f3(D * d, g); f3(D * dv, w); return same("Dyad * PlanarDirection", g, w, 3);
+    case 10: { const PlanarVector<T> r((T)mag, d); const PlanarVector<T> q = dv * (T)mag; g[0] = r.x(); g[1] = r.y(); w[0] = q.x(); w[1] = q.y(); return same("PlanarVector(magnitude, PlanarDirection)", g, w, 2); }
+    case 11: g[0] = d.MagnitudeSquared(); w[0] = dv.MagnitudeSquared(); g[1] = d.Magnitude(); w[1] = dv.Magnitude(); return same("PlanarDirection.MagnitudeSquared()/Magnitude()", g, w, 2);
+    default: return "";
+  }
+}
+static Verdict c09_direction_products(const Case& c) {
+  const int nt = (int)c.i[0], n = (int)c.i[1], which = (int)c.i[2];
+  const LD* a = &c.r[0]; const LD* b = &c.r[3]; const LD* t9 = &c.r[6]; const LD mag = c.r[15];
+  const std::string m = nt == 0 ? dirprod<float>(n, which, a, b, t9, mag) : nt == 1 ? dirprod<double>(n, which, a, b, t9, mag) : dirprod<long double>(n, which, a, b, t9, mag);
+  if (!m.empty()) return Verdict::fail(m + " [" + ntinfo(nt).name + "]");
+  Verdict V; V.cls = std::string(ntinfo(nt).name) + (n == 3 ? ";3d" : ";2d") + ";overload" + std::to_string(which); V.nontrivial = true; return V;
+}
+
 // C05: the embedding of a planar direction into three dimensions and back is lossless
 template <class T> static std::string embed_dir(const LD* v) {
   const PlanarDirection<T> p((T)v[0], (T)v[1]);
@@ -228,6 +285,14 @@ static Verdict c05_direction_embedding(const Case& c) {
 
 int main(int argc, char** argv) {
   std::vector<Sub> subs;
+  {
+    Sub s; s.name = "c09.direction_products"; s.property = "C09"; s.instances = 3 * 2 * 12; s.n_quick = 300; s.n_thorough = 10000; s.run = c09_direction_products;
+    s.gen = [](int inst) { const int which = inst % 12, n = 2 + (inst / 12) % 2, nt = inst / 24;
+      return rc::gen::map(gen_reals(16, nt, -8, 8, kNeg), [=](const std::vector<LD>& v) { Case c; c.i = {nt, n, which}; c.r = v; return c; }); };
+    s.rule = "the 12 x 2 product overloads that take a Direction / PlanarDirection (Dot, Cross, Dyadic in both operand orders, tensor * direction, Vector(magnitude, direction), MagnitudeSquared / Magnitude) x 3 numeric types: "
+             "bit-equal to the same product taken with the direction's stored vector";
+    subs.push_back(s);
+  }
   {
     Sub s; s.name = "c05.direction_embedding"; s.property = "C05"; s.instances = 3; s.n_quick = 5000; s.n_thorough = 300000; s.run = c05_direction_embedding;
     s.gen = [](int nt) { return rc::gen::map(gen_vec(nt, 2, 2), [=](const std::vector<LD>& v) { Case c; c.i = {nt}; c.r = {v[0], v[1]}; return c; }); };
